@@ -127,7 +127,9 @@ class ApiPart(StorePart):
     @staticmethod
     def generate(rng, tier):
         n = 150 if tier == "quick" else 4000
-        return [("a%d" % i, H.gen_history(rng, H.W_API, plain_meta=0.6)) for i in range(n)]
+        # ... and values published by providers through kuksa.val.v2 OpenProviderStream on the real server
+        return [("a%d" % i, H.gen_history(rng, H.W_API, plain_meta=0.6)) for i in range(n)] + \
+               [("st%d" % i, H.stream_scenario(rng)) for i in range(n // 5)]
 
     @staticmethod
     def histogram(lines, out):
